@@ -100,6 +100,11 @@ def build_class(it, st: ast.ClassDef, fr):
             cv.nocompare = tuple(nocmp)
         elif name.split(".")[-1] in ("total_ordering", "final", "runtime_checkable", "unique"):
             pass
+        elif name in ("guppy.struct",):
+            # Guppy mode: a @guppy.struct class is constructed field by field in declaration
+            # order, like a dataclass (guppylang generates exactly that constructor)
+            cv.dataclass = {"frozen": False, "order": False, "eq": False, "init": True}
+            cv.guppy_struct = True
         else:
             cv.attrs.setdefault("__decorators__", []).append(d)
     return cv
